@@ -3,7 +3,7 @@ import ast
 import itertools
 
 from sa.program import src, own_nodes, call_name, parent, kwarg, AnchorMissing
-from sa import guards, poly, affine
+from sa import guards, poly, affine, resolve
 from sa.poly import Rat, Poly
 
 EXPLANATION = (
@@ -238,9 +238,17 @@ def r09_2(ctx):
     for q, want in ((A + '.bsp_mass_1d', ('0', '0')), (A + '.bsp_stiffness_1d', ('1', '1')), (A + '.bsp_mass_1d_asym', ('0', '0')), (A + '.bsp_stiffness_1d_asym', ('1', '1'))):
         f = ctx.prog.func(q)
         c = guards.returns_of(f.node)[-1].value
+        c = resolve.expand(c, guards.returns_of(f.node)[-1]) if not isinstance(c, ast.Call) else c
+        if not isinstance(c, ast.Call):
+            ctx.undecided('R09.2', q, src(c)[:80], f.node, 'result is not a call of the mixed-derivative form')
+            continue
         args = [src(a) for a in c.args]
-        got = tuple(args[1:3]) if 'asym' not in q else tuple(args[2:4])
-        ctx.decide('R09.2', q, src(c), got == want, c, 'derivative orders (du, dv) = %s' % (want,))
+        pos = 1 if 'asym' not in q else 2
+        du = kwarg(c, 'du', 99)
+        dv = kwarg(c, 'dv', 99)
+        got = (src(du) if du is not None and len(args) <= pos else (args[pos] if len(args) > pos else None),
+               src(dv) if dv is not None and len(args) <= pos + 1 else (args[pos + 1] if len(args) > pos + 1 else None))
+        ctx.decide('R09.2', q, src(c), (got == want) if None not in got else None, c, 'derivative orders (du, dv) = %s' % (want,))
     for q in (A + '.mass', A + '.stiffness'):
         f = ctx.prog.func(q)
         kind = q.split('.')[-1]
